@@ -208,6 +208,8 @@ class PokerProp(Prop):
         fd = fork_diff(case, io, self.fields, self.compare_results)
         if fd:
             ow = [fd] + ow
+        if io.get("resume_exc"):
+            ow = ["the constructor refused the serialisable fields of a reachable in-progress state: " + io["resume_exc"]] + ow
         key, tags = self.key_tags(case, evs)
         if io.get("fork"):
             tags = list(tags) + ["forked"]
